@@ -9,7 +9,7 @@
      qr_contract      : qr k n M = Answer Q         ->  Q^T Q = I  /\  exists R upper triangular, M = Q R
                         (no sign condition on diag(R): LAPACK does not give one, and none is needed below)
      argsort_contract : argsort n v is a permutation of 0..n-1 that sorts v ascending *)
-From Coq Require Import List Arith Bool ZArith Reals Lra Lia Permutation Setoid Morphisms.
+From Coq Require Import List Arith Bool ZArith Reals Lra Lia Permutation Sorted Setoid Morphisms.
 From Shampoo Require Import Scalar Matrix MatrixProofs Eigenvectors.
 Import ListNotations.
 Local Open Scope R_scope.
@@ -571,4 +571,273 @@ Section Theorems.
     exact Hsort.
   Qed.
 
+
+  (* ---- the same theorems stated on the entry point matrix_eigenvectors (QRConfig, non-zero estimate) ---- *)
+  Lemma eigvecs_qr_path n dt A E mi tol : n <> 1%nat ->
+    eigvecs [n; n] dt A (Some E) (QRCfg mi tol) false = orthogonal_iterations Op eigh qr argsort dt n A E mi tol.
+  Proof.
+    intros Hn. unfold matrix_eigenvectors. rewrite numel_square_1.
+    apply Nat.eqb_neq in Hn. rewrite Hn, Nat.eqb_refl. reflexivity.
+  Qed.
+
+  Notation qr_run n dt A E mi tol := (eigvecs [n; n] dt A (Some E) (QRCfg mi tol) false).
+
+  Theorem mev_qr_is_permuted_iterate n A E tol dt mi sh dt' Qres :
+    n <> 1%nat -> is_zero_mat Op n E = false -> r_out (qr_run n dt A E mi tol) = Ok sh dt' Qres ->
+    exists k Qk,
+      loop_rule n A E tol (Z.to_nat mi) k /\ iterate n A E k = Some Qk
+      /\ sh = [n; n] /\ dt' = dt /\ Qres = permute_cols Qk (argsort n (rayleigh Op n A Qk))
+      /\ r_iters (qr_run n dt A E mi tol) = k /\ length (r_qrq (qr_run n dt A E mi tol)) = k
+      /\ r_eighq (qr_run n dt A E mi tol) = [].
+  Proof. intros Hn. rewrite (eigvecs_qr_path n dt A E mi tol Hn). apply qr_iter_is_permuted_iterate. Qed.
+
+  Theorem mev_qr_loop_bounds n A E tol dt mi sh dt' Qres :
+    n <> 1%nat -> is_zero_mat Op n E = false -> r_out (qr_run n dt A E mi tol) = Ok sh dt' Qres ->
+    let k := r_iters (qr_run n dt A E mi tol) in
+    ((1 <= mi)%Z -> (1 <= k)%nat /\ (Z.of_nat k <= mi)%Z)
+    /\ ((mi <= 0)%Z -> k = 0%nat)
+    /\ (forall j, (1 <= j)%nat -> (j < k)%nat -> tol < change n A E j)
+    /\ ((Z.of_nat k < mi)%Z -> change n A E k <= tol)
+    /\ (forall k', loop_rule n A E tol (Z.to_nat mi) k' -> k' = k).
+  Proof. intros Hn. rewrite (eigvecs_qr_path n dt A E mi tol Hn). apply qr_loop_bounds. Qed.
+
+  Theorem mev_qr_iter_orthonormal n A E tol dt mi sh dt' Qres :
+    n <> 1%nat -> is_zero_mat Op n E = false -> ((1 <= mi)%Z \/ morth_cols Op n E) ->
+    r_out (qr_run n dt A E mi tol) = Ok sh dt' Qres ->
+    exists Qk p, Permutation p (seq 0 n) /\ morth_cols Op n Qk /\ Qres = permute_cols Qk p /\ morth_cols Op n Qres.
+  Proof. intros Hn. rewrite (eigvecs_qr_path n dt A E mi tol Hn). apply qr_iter_orthonormal. Qed.
+
+  Theorem mev_qr_sorted_by_rayleigh n A E tol dt mi sh dt' Qres :
+    n <> 1%nat -> is_zero_mat Op n E = false -> r_out (qr_run n dt A E mi tol) = Ok sh dt' Qres ->
+    forall i j, (i < j)%nat -> (j < n)%nat -> rq rnd n A Qres i <= rq rnd n A Qres j.
+  Proof. intros Hn. rewrite (eigvecs_qr_path n dt A E mi tol Hn). apply qr_sorted_by_rayleigh. Qed.
+
+  Theorem mev_qr_fixes_eigenbasis n A Q0 L tol dt mi sh dt' Qres :
+    (2 <= n)%nat ->
+    morth_cols Op n Q0 -> meq n (mmul Op n A Q0) (mmul Op n Q0 (mdiag Op L)) ->
+    (forall i, (i < n)%nat -> L i <> 0) -> strictly_ascending n L ->
+    r_out (qr_run n dt A Q0 mi tol) = Ok sh dt' Qres ->
+    exists s, signs n s /\ meq n Qres (col_signs Q0 s).
+  Proof.
+    intros Hn. rewrite (eigvecs_qr_path n dt A Q0 mi tol) by lia. apply qr_fixes_eigenbasis. lia.
+  Qed.
+
 End Theorems.
+
+(* ====================================================================== the executable argsort meets its contract *)
+Section InsertionSort.
+  Variable rnd : R -> R.
+  Notation Op := (R_ops rnd).
+
+  Lemma insert_idx_perm (v : vec R) x l : Permutation (insert_idx Op v x l) (x :: l).
+  Proof.
+    induction l as [|y r IH]; cbn [insert_idx]; [apply Permutation_refl|].
+    destruct (fleb Op (v x) (v y)); [apply Permutation_refl|].
+    eapply Permutation_trans; [apply perm_skip; exact IH|apply perm_swap].
+  Qed.
+
+  Lemma isort_perm (v : vec R) l : Permutation (fold_right (insert_idx Op v) [] l) l.
+  Proof.
+    induction l as [|x l IH]; cbn [fold_right]; [apply Permutation_refl|].
+    eapply Permutation_trans; [apply insert_idx_perm|apply perm_skip; exact IH].
+  Qed.
+
+  Definition le_by (v : vec R) (a b : nat) : Prop := v a <= v b.
+
+  Lemma insert_idx_sorted (v : vec R) x l :
+    StronglySorted (le_by v) l -> StronglySorted (le_by v) (insert_idx Op v x l).
+  Proof.
+    induction l as [|y r IH]; intros H; cbn [insert_idx].
+    - constructor; constructor.
+    - inversion H as [|? ? Hr Hy]; subst. cbn [fleb R_ops]. destruct (Rleb (v x) (v y)) eqn:E.
+      + apply Rleb_true in E. constructor; [exact H|]. constructor; [exact E|].
+        eapply Forall_impl; [|exact Hy]. intros z Hz. unfold le_by in *. lra.
+      + assert (v y <= v x) as Hyx.
+        { destruct (Rle_or_lt (v x) (v y)) as [Hc|Hc]; [apply Rleb_true in Hc; congruence|lra]. }
+        constructor; [apply IH; exact Hr|].
+        eapply Permutation_Forall; [apply Permutation_sym, insert_idx_perm|]. constructor; assumption.
+  Qed.
+
+  Lemma strongly_sorted_nth (v : vec R) l : StronglySorted (le_by v) l ->
+    forall i j, (i < j)%nat -> (j < length l)%nat -> v (nth i l 0%nat) <= v (nth j l 0%nat).
+  Proof.
+    induction 1 as [|a l Hl IH Ha]; intros i j Hij Hj; [cbn in Hj; lia|].
+    destruct j as [|j]; [lia|]. cbn [length] in Hj. destruct i as [|i]; cbn [nth].
+    - rewrite Forall_forall in Ha. apply Ha. apply nth_In. lia.
+    - apply IH; lia.
+  Qed.
+
+  (* the stable insertion sort is a valid argsort oracle: the argsort contract is satisfiable, for every n and v *)
+  Theorem isort_argsort_spec n (v : vec R) : argsort_spec n v (isort_argsort Op n v).
+  Proof.
+    unfold isort_argsort. split; [apply isort_perm|].
+    intros i j Hij Hj. apply strongly_sorted_nth; [|exact Hij|].
+    - induction (seq 0 n) as [|x l IH]; cbn [fold_right]; [constructor|apply insert_idx_sorted; exact IH].
+    - rewrite (Permutation_length (isort_perm v (seq 0 n))), seq_length. exact Hj.
+  Qed.
+End InsertionSort.
+
+(* ====================================================================== non-vacuity: concrete oracles meeting the contracts *)
+Section Examples.
+  Variable rnd : R -> R.
+  Notation Op := (R_ops rnd).
+
+  Definition m22 (a b c d : R) : mat R :=
+    fun i j => match i, j with
+               | O, O => a | O, S O => b | S O, O => c | S O, S O => d
+               | _, _ => 0
+               end.
+  Definition exQ : mat R := m22 (3/5) (-4/5) (4/5) (3/5).        (* a rotation *)
+  Definition exA1 : mat R := m22 3 4 4 7.                          (* symmetric positive definite; = exQ exU1 *)
+  Definition exU1 : mat R := m22 5 8 0 1.
+  Definition exA2 : mat R := m22 41 (-12) (-12) 34.                (* = exQ diag(25,50) exQ^T *)
+  Definition exL2 : vec R := fun i => match i with O => 25 | _ => 50 end.
+  Definition exM2 : mat R := m22 15 (-40) 20 30.                   (* = exA2 exQ = exQ diag(25,50) *)
+  Definition exU2 : mat R := m22 25 0 0 50.
+
+  Definition is22 (M : mat R) (a b c d : R) : bool :=
+    Reqb (M 0 0)%nat a && Reqb (M 0 1)%nat b && Reqb (M 1 0)%nat c && Reqb (M 1 1)%nat d.
+  Lemma is22_meq M a b c d : is22 M a b c d = true -> meq 2 M (m22 a b c d).
+  Proof.
+    unfold is22. intros H. repeat (apply andb_true_iff in H; destruct H as [H ?]).
+    apply Reqb_true in H, H0, H1, H2. intros i j Hi Hj.
+    destruct i as [|[|i]]; [| |lia]; (destruct j as [|[|j]]; [| |lia]); cbn [m22]; assumption.
+  Qed.
+  Lemma is22_of_meq M a b c d : meq 2 M (m22 a b c d) -> is22 M a b c d = true.
+  Proof.
+    intros H. unfold is22. rewrite (H 0 0)%nat, (H 0 1)%nat, (H 1 0)%nat, (H 1 1)%nat by lia. cbn [m22].
+    repeat (apply andb_true_iff; split); apply Reqb_true; reflexivity.
+  Qed.
+
+  (* entries of 2 x 2 products *)
+  Ltac two i j Hi Hj := intros i j Hi Hj; destruct i as [|[|i]]; [| |lia]; (destruct j as [|[|j]]; [| |lia]).
+  Ltac sum2 := rewrite ?(rsum_S rnd), ?(rsum_O rnd); unfold mtrans, mid, mdiag, exQ, exA1, exU1, exA2, exL2, exM2, exU2, m22; cbn [Nat.eqb f0 f1 R_ops].
+
+  Lemma exQ_orth : morth_cols Op 2 exQ.
+  Proof. two i j Hi Hj; rewrite rmmul_get by lia; sum2; lra. Qed.
+  Lemma exA1_qr : meq 2 exA1 (mmul Op 2 exQ exU1).
+  Proof. two i j Hi Hj; rewrite rmmul_get by lia; sum2; lra. Qed.
+  Lemma exM2_qr : meq 2 exM2 (mmul Op 2 exQ exU2).
+  Proof. two i j Hi Hj; rewrite rmmul_get by lia; sum2; lra. Qed.
+  Lemma exA2_spec : meq 2 exA2 (spec rnd 2 exQ exL2).
+  Proof. two i j Hi Hj; rewrite spec_get by lia; sum2; lra. Qed.
+  Lemma exA2_eig : meq 2 (mmul Op 2 exA2 exQ) (mmul Op 2 exQ (mdiag Op exL2)).
+  Proof. two i j Hi Hj; rewrite !rmmul_get by lia; sum2; lra. Qed.
+  Lemma exA2_exQ : meq 2 (mmul Op 2 exA2 exQ) exM2.
+  Proof. two i j Hi Hj; rewrite !rmmul_get by lia; sum2; lra. Qed.
+  Lemma exA1_id : meq 2 (mmul Op 2 exA1 (mid Op)) exA1.
+  Proof. apply mmul_id_r. Qed.
+  Lemma upper_m22 a b d : upper_tri 2 (m22 a b 0 d).
+  Proof. intros i j Hi Hj Hji. destruct i as [|[|i]]; [lia| |lia]. destruct j as [|j]; [reflexivity|lia]. Qed.
+
+  (* the example oracles: answer on the matrices above (any call number), raise otherwise *)
+  Definition ex_qr : nat -> nat -> mat R -> reply (mat R) :=
+    fun _ n M => if (n =? 2)%nat && (is22 M 3 4 4 7 || is22 M 15 (-40) 20 30) then Answer exQ else Fails.
+  Definition ex_eigh : nat -> nat -> mat R -> reply (vec R * mat R) :=
+    fun _ n M => if (n =? 2)%nat && is22 M 41 (-12) (-12) 34 then Answer (exL2, exQ) else Fails.
+
+  Example ex_qr_contract : forall k n M Q, ex_qr k n M = Answer Q -> qr_spec rnd n M Q.
+  Proof.
+    intros k n M Q. unfold ex_qr. destruct ((n =? 2)%nat && _) eqn:C; [|discriminate]. intros H; inversion H; subst Q.
+    apply andb_true_iff in C. destruct C as [Hn C]. apply Nat.eqb_eq in Hn. subst n.
+    split; [apply exQ_orth|]. apply orb_true_iff in C. destruct C as [C|C]; apply is22_meq in C.
+    - exists exU1. split; [apply upper_m22|]. rewrite C. apply exA1_qr.
+    - exists exU2. split; [apply upper_m22|]. rewrite C. apply exM2_qr.
+  Qed.
+  Example ex_eigh_contract : forall k n A L Q, ex_eigh k n A = Answer (L, Q) -> eigh_spec rnd n A L Q.
+  Proof.
+    intros k n A L Q. unfold ex_eigh. destruct ((n =? 2)%nat && _) eqn:C; [|discriminate]. intros H; inversion H; subst L Q.
+    apply andb_true_iff in C. destruct C as [Hn C]. apply Nat.eqb_eq in Hn. subst n. apply is22_meq in C.
+    split; [apply exQ_orth|]. split; [rewrite C; apply exA2_spec|].
+    intros i j Hij Hj. destruct i as [|i]; [|lia]. destruct j as [|[|j]]; [lia| |lia]. cbn [exL2]. lra.
+  Qed.
+  Definition ex_argsort : nat -> vec R -> list nat := isort_argsort Op.
+  Example ex_argsort_contract : forall n v, argsort_spec n v (ex_argsort n v).
+  Proof. apply isort_argsort_spec. Qed.
+
+  Lemma ex_qr_answers M : meq 2 M exA1 \/ meq 2 M exM2 -> forall k, ex_qr k 2 M = Answer exQ.
+  Proof.
+    intros H k. unfold ex_qr. cbn [Nat.eqb andb].
+    destruct H as [H|H]; apply is22_of_meq in H; rewrite H; [reflexivity|rewrite orb_true_r; reflexivity].
+  Qed.
+
+  Notation ex_run := (matrix_eigenvectors Op ex_eigh ex_qr ex_argsort).
+
+  (* the eigendecomposition branch on exA2: hypotheses of eigvec_dispatch hold and the conclusion is not vacuous *)
+  Example ex_dispatch_eigh :
+    ex_run [2; 2]%nat F32 exA2 None (EighCfg true) false = mkRes (Ok [2; 2]%nat F32 exQ) [exA2] [] 0
+    /\ morth_cols Op 2 exQ /\ meq 2 (mmul Op 2 (mtrans exQ) (mmul Op 2 exA2 exQ)) (mdiag Op exL2) /\ ascending 2 exL2.
+  Proof.
+    pose proof (eigvec_dispatch rnd ex_eigh ex_qr ex_argsort ex_eigh_contract) as (_ & _ & _ & _ & H & _).
+    apply (H 2%nat F32 exA2 None true exL2 exQ); [lia|].
+    unfold ex_eigh. cbn [Nat.eqb andb]. rewrite is22_of_meq; [reflexivity|]. intros i j _ _. reflexivity.
+  Qed.
+
+  (* one QR iteration on exA1 from the identity: the run succeeds (so the hypotheses of the loop theorems are
+     satisfiable), makes exactly one iteration, and the theorems give orthonormality and the Rayleigh order *)
+  Example ex_qr_iteration :
+    exists Qres,
+      r_out (ex_run [2; 2]%nat F64 exA1 (Some (mid Op)) (QRCfg 1 0) false) = Ok [2; 2]%nat F64 Qres
+      /\ r_iters (ex_run [2; 2]%nat F64 exA1 (Some (mid Op)) (QRCfg 1 0) false) = 1%nat
+      /\ morth_cols Op 2 Qres
+      /\ rq rnd 2 exA1 Qres 0 <= rq rnd 2 exA1 Qres 1.
+  Proof.
+    assert (is_zero_mat Op 2 (mid Op) = false) as Hz.
+    { apply (orth_not_zero rnd); [lia|]. apply morth_id. }
+    assert (exists Qres, r_out (ex_run [2; 2]%nat F64 exA1 (Some (mid Op)) (QRCfg 1 0) false) = Ok [2; 2]%nat F64 Qres) as [Qres HQ].
+    { rewrite (eigvecs_qr_path rnd) by lia. unfold orthogonal_iterations. rewrite Hz.
+      change (Z.to_nat 1) with 1%nat. cbn [orth_loop keep_going].
+      rewrite (ex_qr_answers (mmul Op 2 exA1 (mid Op)) (or_introl exA1_id)). cbn [r_out]. eexists. reflexivity. }
+    exists Qres. split; [exact HQ|].
+    pose proof (mev_qr_loop_bounds rnd ex_eigh ex_qr ex_argsort 2 exA1 (mid Op) 0 F64 1 _ _ _ ltac:(lia) Hz HQ) as (Hb & _).
+    destruct (mev_qr_iter_orthonormal rnd ex_eigh ex_qr ex_argsort ex_qr_contract ex_argsort_contract 2 exA1 (mid Op) 0 F64 1 _ _ _
+                ltac:(lia) Hz (or_introl (Z.le_refl 1%Z)) HQ) as (_ & _ & _ & _ & _ & Horth).
+    pose proof (mev_qr_sorted_by_rayleigh rnd ex_eigh ex_qr ex_argsort ex_argsort_contract 2 exA1 (mid Op) 0 F64 1 _ _ _
+                ltac:(lia) Hz HQ 0%nat 1%nat ltac:(lia) ltac:(lia)) as Hs.
+    split; [|split; [exact Horth|exact Hs]].
+    destruct (Hb ltac:(lia)) as [H1 H2]. lia.
+  Qed.
+
+  (* three QR iterations started at the exact eigenbasis exQ of exA2 (eigenvalues 25 < 50): all hypotheses of
+     qr_fixes_eigenbasis hold, the run succeeds, and the result is exQ up to column signs *)
+  Example ex_fixed_eigenbasis :
+    exists Qres s,
+      r_out (ex_run [2; 2]%nat F64 exA2 (Some exQ) (QRCfg 3 0) false) = Ok [2; 2]%nat F64 Qres
+      /\ signs 2 s /\ meq 2 Qres (col_signs exQ s).
+  Proof.
+    assert (strictly_ascending 2 exL2) as Hasc.
+    { intros i j Hij Hj. destruct i as [|i]; [|lia]. destruct j as [|[|j]]; [lia| |lia]. cbn [exL2]. lra. }
+    assert (forall i, (i < 2)%nat -> exL2 i <> 0) as HL.
+    { intros i Hi. destruct i as [|i]; cbn [exL2]; lra. }
+    assert (is_zero_mat Op 2 exQ = false) as Hz by (apply (orth_not_zero rnd); [lia|apply exQ_orth]).
+    assert (forall k, ex_qr k 2 (mmul Op 2 exA2 exQ) = Answer exQ) as Hq by (apply ex_qr_answers; right; apply exA2_exQ).
+    assert (exists Qres, r_out (ex_run [2; 2]%nat F64 exA2 (Some exQ) (QRCfg 3 0) false) = Ok [2; 2]%nat F64 Qres) as [Qres HQ].
+    { rewrite (eigvecs_qr_path rnd) by lia. unfold orthogonal_iterations. rewrite Hz.
+      change (Z.to_nat 3) with 3%nat. cbn [orth_loop keep_going]. rewrite !Hq.
+      repeat match goal with |- context [if ?b then _ else _] => destruct b end; cbn [r_out]; eexists; reflexivity. }
+    destruct (mev_qr_fixes_eigenbasis rnd ex_eigh ex_qr ex_argsort ex_qr_contract ex_argsort_contract 2 exA2 exQ exL2 0 F64 3 _ _ _
+                ltac:(lia) exQ_orth exA2_eig HL Hasc HQ) as (s & Hs & Hm).
+    exists Qres, s. split; [exact HQ|]. split; assumption.
+  Qed.
+
+  Theorem contracts_satisfiable :
+    exists eigh qr argsort,
+      (forall k n A L Q, eigh k n A = Answer (L, Q) -> eigh_spec rnd n A L Q)
+      /\ (forall k n M Q, qr k n M = Answer Q -> qr_spec rnd n M Q)
+      /\ (forall n v, argsort_spec n v (argsort n v))
+      /\ (matrix_eigenvectors Op eigh qr argsort [2; 2]%nat F32 exA2 None (EighCfg true) false
+          = mkRes (Ok [2; 2]%nat F32 exQ) [exA2] [] 0)
+      /\ (exists Qres, r_out (matrix_eigenvectors Op eigh qr argsort [2; 2]%nat F64 exA1 (Some (mid Op)) (QRCfg 1 0) false)
+                       = Ok [2; 2]%nat F64 Qres
+                       /\ r_iters (matrix_eigenvectors Op eigh qr argsort [2; 2]%nat F64 exA1 (Some (mid Op)) (QRCfg 1 0) false) = 1%nat)
+      /\ (exists Qres s, r_out (matrix_eigenvectors Op eigh qr argsort [2; 2]%nat F64 exA2 (Some exQ) (QRCfg 3 0) false)
+                         = Ok [2; 2]%nat F64 Qres
+                         /\ signs 2 s /\ meq 2 Qres (col_signs exQ s)).
+  Proof.
+    exists ex_eigh, ex_qr, ex_argsort.
+    split; [exact ex_eigh_contract|]. split; [exact ex_qr_contract|]. split; [exact ex_argsort_contract|].
+    split; [apply ex_dispatch_eigh|]. split.
+    - destruct ex_qr_iteration as (Qres & H1 & H2 & _). exists Qres. split; assumption.
+    - exact ex_fixed_eigenbasis.
+  Qed.
+End Examples.
